@@ -432,3 +432,76 @@ MA('C01', 'generic leaf zero-scales stale out instead of copying', NPYT,
 MA('C01', 'small regime accumulates into out', NPYT, '_lincomb_impl',
    'out.data[:] = a * x1.data + b * x2.data',
    'out.data[:] = a * x1.data + b * x2.data + 0 * out.data', 'C01-R1')
+
+# ---- C11 -------------------------------------------------------------------
+ADMMF = 'odl/solvers/nonsmooth/admm.py'
+ADUF = 'odl/solvers/nonsmooth/alternating_dual_updates.py'
+DCF = 'odl/solvers/nonsmooth/difference_convex.py'
+PDHGF = 'odl/solvers/nonsmooth/primal_dual_hybrid_gradient.py'
+ITERF = 'odl/solvers/iterative/iterative.py'
+MA('C11', 'admm u update sign swap', ADMMF, 'admm_linearized',
+   'u += tmp_ran', 'u -= tmp_ran', 'admm_linearized')
+MA('C11', 'admm drops tmp_ran -= z', ADMMF, 'admm_linearized',
+   'tmp_ran -= z', 'pass', 'admm_linearized')
+MA('C11', 'adupdates assigns dual before primal update', ADUF, 'adupdates',
+   'x -= 1.0 / stepsize * L[j].adjoint(tmp_ran - duals[j])',
+   'duals[j].assign(tmp_ran)\nx -= 1.0 / stepsize * L[j].adjoint(tmp_ran - duals[j])',
+   'adupdates')
+MA('C11', 'pdhg rebinds x_relax', PDHGF, 'pdhg',
+   'x_relax.lincomb(1 + theta, x, -theta, x_old)',
+   'x_relax = (1 + theta) * x - theta * x_old', 'pdhg')
+MA('C11', 'landweber hidden accumulated state', ITERF, 'landweber',
+   'op.derivative(x).adjoint(tmp_ran, out=tmp_dom)',
+   'tmp_dom += op.derivative(x).adjoint(tmp_ran)', 'landweber')
+MA('C11', 'kaczmarz callback in both loops', ITERF, 'kaczmarz',
+   "if callback is not None and callback_loop == 'inner':...",
+   'if callback is not None:\n    callback(x)', 'kaczmarz')
+MA('C11', 'doubleprox_dc uses old x in dual step', DCF, 'doubleprox_dc',
+   'f.proximal(gamma)(x.lincomb(1, x, gamma, K.adjoint(y) - phi.gradient(x)), out=x)',
+   'x_new = f.proximal(gamma)(x + gamma * (K.adjoint(y) - phi.gradient(x)))\n'
+   'g_convex_conj.proximal(mu)(y.lincomb(1, y, mu, K(x)), out=y)\nx.assign(x_new)\ncontinue',
+   'doubleprox_dc')
+MA('C11', 'pdhg y not updated in place', PDHGF, 'pdhg',
+   'proximal_dual_sigma(dual_tmp, out=y)', 'y = proximal_dual_sigma(dual_tmp)',
+   'pdhg')
+MA('C11', 'proximal_gradient callback before update', 'odl/solvers/nonsmooth/proximal_gradient_solvers.py',
+   'proximal_gradient', 'lam_k = lam(k)',
+   'lam_k = lam(k)\nif callback is not None:\n    callback(x)', 'proximal_gradient')
+MA('C11', 'admm simple reference changed sign', ADMMF,
+   'admm_linearized_simple', 'u = L(x) + u - z', 'u = L(x) - u - z',
+   'admm_linearized')
+
+# ---- C12 -------------------------------------------------------------------
+STEPF = 'odl/solvers/util/steplen.py'
+MA('C12', 'line search breaks before the decrease test', STEPF,
+   'BacktrackingLineSearch.__call__', 'if fval <= fx - expected_decrease:...',
+   'if fval <= fx:\n    break', 'BacktrackingLineSearch.__call__')
+MA('C12', 'line search tests at the previous point', STEPF,
+   'BacktrackingLineSearch.__call__', 'point.lincomb(1, x, alpha, direction)',
+   'point.lincomb(1, x, alpha / self.tau, direction)',
+   'BacktrackingLineSearch.__call__')
+MA('C12', 'pdhg_stepsize missing square', PDHGF, 'pdhg_stepsize',
+   'tau = 0.9 / (sigma * L_norm ** 2)', 'tau = 0.9 / (sigma * L_norm)',
+   'pdhg_stepsize')
+MA('C12', 'pdhg x_old aliased', PDHGF, 'pdhg', 'x_old.assign(x)', 'x_old = x',
+   'pdhg:x_old')
+MA('C12', 'power method drops renormalisation', 'odl/operator/oputils.py',
+   'power_method_opnorm', 'if np.isclose(opnorm, opnorm_old, rtol, atol):...',
+   'if np.isclose(opnorm, opnorm_old, rtol, atol):\n    break',
+   'power_method_opnorm')
+MA('C12', 'power method drops sqrt', 'odl/operator/oputils.py',
+   'power_method_opnorm.calc_opnorm', 'return np.sqrt(x_norm)',
+   'return x_norm', 'power_method_opnorm')
+MA('C12', 'DR stepsize factor 4', 'odl/solvers/nonsmooth/douglas_rachford.py',
+   'douglas_rachford_pd_stepsize',
+   'sigma = [2.0 / (len(L_norms) * tau * Li_norm ** 2) for Li_norm in L_norms]',
+   'sigma = [4.0 / (len(L_norms) * tau * Li_norm ** 2) for Li_norm in L_norms]',
+   'douglas_rachford_pd_stepsize', nth=0)
+MA('C12', 'steepest descent steps along +grad', 'odl/solvers/smooth/gradient.py',
+   'steepest_descent', 'x.lincomb(1, x, -step, grad_x)',
+   'x.lincomb(1, x, step, grad_x)', 'steepest_descent')
+MA('C12', 'accelerated prox gradient saves alias', 'odl/solvers/nonsmooth/proximal_gradient_solvers.py',
+   'accelerated_proximal_gradient', 'y.assign(x)', 'y_prev = x\nf_prox(tmp, out=x)\ny.lincomb(1 + alpha, x, -alpha, y_prev)\ncontinue',
+   'accelerated_proximal_gradient')
+MA('C12', 'power method first normalisation dropped', 'odl/operator/oputils.py',
+   'power_method_opnorm', 'x /= x_norm', 'pass', 'power_method_opnorm', nth=0)
